@@ -55,6 +55,7 @@ Proof.
     + exact (g_acur _ _ G).
     + intros fr o Hfr Ho. apply Hobj. eapply (g_stack _ _ G); eauto.
     + intros o Ho. apply Hobj. eapply (g_tvals _ _ G); eauto.
+    + exact (g_cfg _ _ G).
   - constructor; rewrite ?Hs, ?Ha, ?Hk, ?Htv; auto.
     + intros n p _ Hl. exists p. split; [exact Hl|]. destruct (is_strname n) eqn:E.
       * destruct (g_scal _ _ G n _ Hl E) as (p' & Hp' & H1 & _). inversion Hp'; subst. auto.
@@ -94,7 +95,8 @@ Lemma store_good c st bs :
   Good c st -> Jt st ->
   let '(st', r) := store c st bs in
   Good c st' /\ Jt st' /\ Rel c st st' /\ shape st' = shape st /\
-  (forall p, r = Ok p -> ptr_ok c st' p /\ fst p = zlen bs /\ deref c st' p = Ok bs) /\
+  (forall p, r = Ok p -> ptr_ok c st' p /\ fst p = zlen bs /\ deref c st' p = Ok bs /\
+                         (0 < zlen bs -> var_start c <= snd p /\ lookup (snd p) (strs st') = Some bs)) /\
   (forall h, r <> Host h) /\ r <> OutOfFuel.
 Proof.
   intros G HJt. unfold store. destruct (255 <? zlen bs) eqn:E255.
@@ -121,14 +123,17 @@ Proof.
         split; [|split; intros; discriminate].
         intros q Hq. inversion Hq; subst q. subst p. simpl.
         destruct (Z.eq_dec (zlen bs) 0) as [Hz|Hz].
-        -- split; [intros _; left; exact Hz|]. split; [reflexivity|].
-           unfold deref. rewrite Hz. simpl. apply zlen_zero_nil in Hz. subst bs. reflexivity.
+        -- split; [split; intros _; [left|]; exact Hz|]. split; [reflexivity|].
+           split; [|intros; lia]. unfold deref. rewrite Hz. simpl. apply zlen_zero_nil in Hz. subst bs. reflexivity.
         -- assert (Hpos : 0 < zlen bs) by lia.
            pose proof (store_raw_lookup_new st1 bs Hpos) as Hnew. rewrite Esr in Hnew. simpl in Hnew.
-           split; [intros _; right; exists bs; auto|]. split; [reflexivity|].
-           unfold deref. apply Z.eqb_neq in Hz. rewrite Hz.
            assert (Hv : (var_start c <=? cur st1 - zlen bs + 1) = true).
            { apply Z.leb_le. destruct (g_low _ _ G1) as (? & ? & _). unfold free in Hfree. lia. }
+           split; [split; [intros _; right; exists bs; auto|]|].
+           { simpl. intros Hlt. apply Z.leb_le in Hv. pose proof (g_cfg _ _ G1). lia. }
+           split; [reflexivity|].
+           split; [|intros _; split; [apply Z.leb_le; exact Hv|exact Hnew]].
+           unfold deref. apply Z.eqb_neq in Hz. rewrite Hz.
            rewrite Hv, Hnew. reflexivity.
     + exfalso. eapply Hnh; reflexivity.
 Qed.
@@ -136,7 +141,7 @@ Qed.
 (* ---------- fix_temporaries ---------- *)
 Lemma ptr_ok_above_cur c st p : Good c st -> ptr_ok c st p -> 0 < fst p -> var_start c <= snd p -> cur st < snd p.
 Proof.
-  intros G Hok Hp Hv. destruct (Hok Hv) as [H|(bs & Hl & _)]; [lia|].
+  intros G Hok Hp Hv. destruct (proj1 Hok Hv) as [H|(bs & Hl & _)]; [lia|].
   apply (chain_lookup _ _ _ _ _ (g_chain _ _ G)) in Hl. lia.
 Qed.
 
@@ -194,6 +199,7 @@ Proof.
   - exact (g_acur _ _ G).
   - intros fr o Hfr Ho. eapply obj_ok_same; eauto.
   - intros o Ho. eapply obj_ok_same; eauto.
+  - exact (g_cfg _ _ G).
 Qed.
 
 Lemma same_mem_set_stack st x : same_mem st (set_stack st x).
@@ -270,7 +276,7 @@ Proof. unfold Jt. intros -> ->. auto. Qed.
 (* the pointer of an acceptable string object is acceptable *)
 Lemma obj_ok_ptr c st o : Good c st -> obj_ok c st o -> ptr_ok c st (optr st o).
 Proof.
-  intros G Ho. destruct o; simpl in *; auto; try (intros _; left; reflexivity).
+  intros G Ho. destruct o; simpl in *; auto; try (split; intros _; [left|]; reflexivity).
   - destruct Ho as [Hs (p & Hp)]. unfold scal_ptr. rewrite Hp.
     destruct (g_scal _ _ G n _ Hp Hs) as (p' & E & A & _). inversion E; subst. exact A.
   - destruct Ho as (Hi & d & els & Hl & Hlt). unfold arr_ptr. rewrite Hl.
@@ -318,7 +324,7 @@ Proof.
 Qed.
 
 Lemma zero_ptr_ok c st : ptr_ok c st (0, 0).
-Proof. intros _. left. reflexivity. Qed.
+Proof. split; intros _; [left|]; reflexivity. Qed.
 
 Lemma zero_Jp c st a : Jp c st (0, a).
 Proof. unfold Jp. destruct (tmp st); auto. simpl. lia. Qed.
@@ -367,6 +373,7 @@ Proof.
     + exact (g_acur _ _ G).
     + intros fr o Hfr Ho. apply Hobj. eapply (g_stack _ _ G); eauto.
     + intros o Ho. apply Hobj. apply (g_tvals _ _ G), Ho.
+    + exact (g_cfg _ _ G).
   - constructor; simpl.
     + intros m p Hm Hl. exists p. rewrite lookup_upsert_other by assumption. split; [exact Hl|]. apply RP_same_mem; reflexivity.
     + intros m z Hm Hl. rewrite lookup_upsert_other by assumption. exact Hl.
@@ -604,7 +611,8 @@ Proof.
       clear - Hm. induction (arrs st1) as [|[k [d' e']] l IH]; simpl in *; [lia|].
       unfold mem_key in *. simpl in Hm. destruct (n =? k) eqn:Ek; [discriminate|]. simpl. rewrite <- IH by exact Hm. lia.
     - intros fr o Hfr Ho. apply Hobj. eapply (g_stack _ _ G1); eauto.
-    - intros o Ho. apply Hobj, (g_tvals _ _ G1), Ho. }
+    - intros o Ho. apply Hobj, (g_tvals _ _ G1), Ho.
+    - exact (g_cfg _ _ G1). }
   assert (HR2 : Rel c st1 st2).
   { constructor; unfold st2; simpl.
     - intros m p _ Hl. exists p. split; [exact Hl|apply RP_same_mem; reflexivity].
@@ -658,7 +666,8 @@ Lemma set_array_good c st n i :
   let '(st', r) := set_array c st n i in
   Good c st' /\ Jt st' /\ (forall h, r <> Host h) /\ r <> OutOfFuel /\
   stack st' = stack st /\ tvals st' = tvals st /\ scal st' = scal st /\ fns st' = fns st /\ active st' = active st /\
-  (forall m, mem_key m (arrs st) = true -> mem_key m (arrs st') = true).
+  (forall m, mem_key m (arrs st) = true -> mem_key m (arrs st') = true) /\
+  (forall m d els, lookup m (arrs st) = Some (d, els) -> exists els', lookup m (arrs st') = Some (d, els') /\ length els' = length els).
 Proof.
   intros G HJt Hm. unfold set_array. cbv zeta.
   set (st0 := if is_strobj (top_obj st) then fix_temporaries st else st).
@@ -679,12 +688,16 @@ Proof.
     destruct (check_dim c (fix_temporaries st) n i) as [st1 r1].
     destruct Hcd as (G1 & HJ1 & HR1 & Hok & Hnh & Hnf & Hst1).
     assert (E1 : st1 = fix_temporaries st) by (apply Hst1; simpl; exact Hm). subst st1.
-    destruct r1 as [[]|e|h|]; cbn [bindR]; try (spl; auto; try (intros; discriminate); tauto).
+    destruct r1 as [[]|e|h|]; cbn [bindR]; try (spl; eauto; try (intros; discriminate); tauto).
     destruct (Hok eq_refl) as (Hi0 & d & els & Hl & Hlt). unfold retR.
     set (st2 := set_loc (fix_temporaries st) (LArr n (Z.to_nat i)) p).
     assert (Hst2 : st2 = set_arrs (fix_temporaries st) (upsert n (d, update_nth (Z.to_nat i) p els) (arrs (fix_temporaries st)))).
     { unfold st2. simpl. simpl in Hl. rewrite Hl. reflexivity. }
-    split; [|rewrite Hst2; simpl; spl; auto; try (intros; discriminate); try tauto; intros m Hmm; apply mem_key_upsert, Hmm].
+    split; [|rewrite Hst2; simpl; spl; auto; try (intros; discriminate); try tauto;
+             [intros m Hmm; apply mem_key_upsert, Hmm|
+              intros m d0 els0 Hl0; simpl in Hl; destruct (Z.eq_dec m n) as [->|Hne];
+              [rewrite Hl in Hl0; inversion Hl0; subst; rewrite lookup_upsert_same; eexists; split; [reflexivity|apply length_update_nth]
+              |rewrite lookup_upsert_other by assumption; eauto]]].
     rewrite Hst2. simpl in Hl.
     assert (Hin : forall q, In q (update_nth (Z.to_nat i) p els) -> q = p \/ In q els).
     { clear. generalize (Z.to_nat i). induction els as [|x els IH]; intros [|k] q; simpl; auto.
@@ -720,8 +733,9 @@ Proof.
       * rewrite IH by exact Hl. reflexivity.
     + intros fr o Hfr Ho. apply Hobj. eapply (g_stack _ _ G0); eauto.
     + intros o Ho. apply Hobj, (g_tvals _ _ G0), Ho.
+    + exact (g_cfg _ _ G0).
   - unfold errR. assert (Est0 : st0 = st) by (unfold st0; reflexivity). rewrite Est0.
-    spl; auto; intros; discriminate.
+    spl; eauto; intros; discriminate.
 Qed.
 
 (* ---------- statement-level operations: no expression is being evaluated ---------- *)
@@ -793,6 +807,7 @@ Proof.
     + exact Hsum.
     + rewrite Hs. intros fr o [].
     + rewrite Ht. intros o [].
+    + exact (g_cfg _ _ G).
   - unfold errR. spl; auto; try (intros; discriminate). unfold idle; auto.
 Qed.
 
@@ -813,6 +828,7 @@ Proof.
   - reflexivity.
   - rewrite Hs. intros fr o [].
   - intros o [].
+  - exact (g_cfg _ _ G).
 Qed.
 
 (* the state of the variables as BASIC sees it: a value for every scalar and every array element *)
@@ -848,7 +864,7 @@ Proof.
       - exact (g_scal_num _ _ G).
       - intros n d els Hl. destruct (g_arrs _ _ G n d els Hl) as [A B]. split; [exact A|]. intros p Hp. destruct (B p Hp). auto.
       - exact (g_arrlen _ _ G). - exact (g_acur _ _ G).
-      - rewrite Hs. intros fr o []. - rewrite Ht. intros o []. }
+      - rewrite Hs. intros fr o []. - rewrite Ht. intros o []. - exact (g_cfg _ _ G). }
     unfold st1. destruct (tmp st) as [t|] eqn:Et; [|spl; auto].
     destruct (t =? cur st) eqn:Etc; [spl; auto|]. apply Z.eqb_neq in Etc.
     unfold delete_last. destruct (lookup (cur st + 1) (strs st)) as [bs|] eqn:El; [|spl; auto].
@@ -862,14 +878,14 @@ Proof.
     assert (Hkeep : forall p, ptr_ok c st p -> Jp c st p ->
                     ptr_ok c (set_tmp (set_strs (set_cur st (cur st + zlen bs)) r) None) p /\
                     deref c (set_strs (set_cur st (cur st + zlen bs)) r) p = deref c st p).
-    { intros [l a] Hok HJ. unfold ptr_ok, deref, Jp in *. rewrite Et, Es in *. simpl in *.
-      destruct (l =? 0) eqn:El0; [apply Z.eqb_eq in El0; split; [intros; left; exact El0|reflexivity]|].
-      apply Z.eqb_neq in El0. destruct (var_start c <=? a) eqn:Ev; [|split; [intros; apply Z.leb_gt in Ev; lia|reflexivity]].
+    { intros [l a] [Hok Hnf] HJ. unfold ptr_ok, deref, Jp in *. rewrite Et, Es in *. simpl in *.
+      destruct (l =? 0) eqn:El0; [apply Z.eqb_eq in El0; split; [split; [intros; left; exact El0|exact Hnf]|reflexivity]|].
+      apply Z.eqb_neq in El0. destruct (var_start c <=? a) eqn:Ev; [|split; [split; [intros; apply Z.leb_gt in Ev; lia|exact Hnf]|reflexivity]].
       apply Z.leb_le in Ev. destruct (Hok Ev) as [H0|(x & Hx & Hz)]; [contradiction|].
       assert (Hpos : 0 < l).
       { destruct (a =? cur st + 1); [inversion Hx; subst; lia|]. apply (chain_lookup _ _ _ _ _ Hch) in Hx. lia. }
       specialize (HJ Hpos Ev). assert (Ene : (a =? cur st + 1) = false) by (apply Z.eqb_neq; lia).
-      rewrite Ene in *. split; [intros _; right; eauto|reflexivity]. }
+      rewrite Ene in *. split; [split; [intros _; right; eauto|exact Hnf]|reflexivity]. }
     split.
     - constructor; simpl; try exact I.
       + replace (cur st + zlen bs + 1) with (cur st + 1 + zlen bs) by lia. exact Hch.
@@ -886,6 +902,7 @@ Proof.
       + exact (g_acur _ _ G).
       + rewrite Hs. intros fr o [].
       + rewrite Ht. intros o [].
+      + exact (g_cfg _ _ G).
     - simpl. spl; auto. intros p Hok HJ. apply Hkeep; assumption. }
   destruct H1 as (G1 & Hsc & Har & Hs1 & Ht1 & Ha1 & Hf1 & Htm1 & Hsz1 & Hscur1 & Hacur1 & Hderef).
   destruct (fix_temporaries_good c (set_tmp st1 None) G1) as (G2 & HJ2 & HR2 & _).
@@ -947,4 +964,5 @@ Proof.
     + rewrite IH by exact Hl. reflexivity.
   - intros fr o Hfr Ho. apply Hobj. eapply (g_stack _ _ G); eauto.
   - intros o Ho. apply Hobj, (g_tvals _ _ G), Ho.
+  - exact (g_cfg _ _ G).
 Qed.
